@@ -234,3 +234,12 @@ def with_variants(cfgs, names):
 
 def split_variant(cfg):
     return Cfg(*cfg[:-1]), cfg[-1]
+
+
+def rm_search_heavy(cfg, kmax=6):
+    """Reed-Muller codes whose nearest-codeword search (2^k-way symbolic argmin inside inverse_encode / calculate_syndrome)
+    exceeds the symbolic budget; such configurations are kept out of the obligations that execute that search symbolically"""
+    if cfg[0] != "rm":
+        return False
+    enc, _ = try_build(Cfg(*cfg[:3]))
+    return enc is not None and enc.generator_matrix.shape[0] > kmax
